@@ -272,6 +272,9 @@ Proof.
   apply IH; [exact P1|exact N1|]. intro E. split; [apply P2, E|apply N2, E].
 Qed.
 
+Lemma P_key_slot n c : P c -> P (key_slot n c).
+Proof. unfold key_slot. destruct (loopKey n); auto. Qed.
+
 Lemma rloop_nf n c : calm c -> NF c -> P (rloop fr n c).
 Proof.
   intros H HN. unfold rloop. destruct (split_path (loopSrc n)) as [|k rest]; [apply NF_P; exact HN|].
@@ -283,11 +286,11 @@ Proof.
   - destruct v; try (apply NF_P; exact N1).
     destruct (jget j rest); try (apply NF_P; exact N1); try apply H2;
       match goal with |- context [match ?l with [] => _ | _ :: _ => _ end] => destruct l end;
-      try apply H2; (apply vloop_nf; [apply calm_okc; exact H1|apply NF_P; exact N1|intros _; split; assumption]).
+      try apply H2; (apply P_key_slot, vloop_nf; [apply calm_okc; exact H1|apply NF_P; exact N1|intros _; split; assumption]).
   - destruct v; try (apply NF_P; exact N1).
     destruct (nth_error (store (w_cerr c None)) oid); try (apply NF_P; exact N1).
     destruct (oloop ofuel o (prefix ++ rest)) as [[sp cnt]|]; [|apply NF_P; exact N1].
-    apply oloop_run_nf; [apply calm_okc; exact H1|apply NF_P; exact N1|intros _; split; assumption].
+    destruct cnt; [|apply P_key_slot]; (apply oloop_run_nf; [apply calm_okc; exact H1|apply NF_P; exact N1|intros _; split; assumption]).
 Qed.
 
 Lemma branch_nf n c ok e : calm c -> NF c -> noEU (snd (branch fr n c ok e)) -> NF (fst (branch fr n c ok e)).
